@@ -1,11 +1,787 @@
-//! dv_gen <seed> <out.rs>: emit a set of random derive inputs with their descriptors.
+//! dv_gen <seed> <out.rs> [count]: emit a set of random `#[derive(Deserr)]` inputs together
+//! with their descriptors (`Described`), `ToModel` impls and registry entries.
+//!
+//! The effective keys written into the descriptors are computed HERE, by the harness' own
+//! implementation of the documented rule (rename > applicable rename_all > identifier),
+//! never by deserr.
+
+use proptest::test_runner::{RngAlgorithm, TestRng};
+use rand::Rng;
+use std::fmt::Write;
+
+struct R {
+    rng: TestRng,
+    next_probe: u32,
+}
+impl R {
+    fn below(&mut self, n: usize) -> usize {
+        if n == 0 {
+            0
+        } else {
+            self.rng.random_range(0..n)
+        }
+    }
+    fn chance(&mut self, p: f64) -> bool {
+        self.rng.random_bool(p)
+    }
+    fn pick<'a, T>(&mut self, xs: &'a [T]) -> &'a T {
+        &xs[self.below(xs.len())]
+    }
+    fn probe(&mut self) -> u32 {
+        self.next_probe += 1;
+        self.next_probe
+    }
+}
+
+#[derive(Clone, Debug)]
+struct PoolTy {
+    rust: String,
+    /// implements Default
+    default_ok: bool,
+    /// expressions usable in `default = expr`
+    exprs: Vec<String>,
+    /// usable with the `map` probe (implements Bump)
+    bump: bool,
+    /// nesting level of generated types inside
+    level: usize,
+    /// only usable under Rec error types (pinned types); never used as a field type
+    generic: bool,
+}
+
+fn p(rust: &str, default_ok: bool, exprs: &[&str], bump: bool) -> PoolTy {
+    PoolTy { rust: rust.into(), default_ok, exprs: exprs.iter().map(|s| s.to_string()).collect(), bump, level: 0, generic: true }
+}
+
+fn base_pool() -> Vec<PoolTy> {
+    vec![
+        p("u8", true, &["7u8", "200u8", "77u8"], true),
+        p("i16", true, &["-5i16", "300i16"], true),
+        p("u32", true, &["77u32", "12u32"], true),
+        p("i64", true, &["-9i64"], true),
+        p("u64", true, &["101u64", "4u64"], true),
+        p("bool", true, &["true"], true),
+        p("String", true, &["String::from(\"dflt\")", "String::from(\"bad\")"], true),
+        p("char", true, &["'z'"], false),
+        p("f64", true, &["1.5f64"], false),
+        p("NonZeroU8", false, &["NonZeroU8::new(9).unwrap()"], false),
+        p("()", true, &[], false),
+        p("Option<u8>", true, &["Some(3u8)"], true),
+        p("Option<String>", true, &["Some(String::from(\"x\"))"], true),
+        p("Option<bool>", true, &[], true),
+        p("Option<i16>", true, &["Some(-1i16)"], true),
+        p("Vec<u8>", true, &["vec![1u8, 2u8]"], false),
+        p("Vec<String>", true, &[], false),
+        p("Vec<Option<u8>>", true, &[], false),
+        p("BTreeMap<String, u8>", true, &[], false),
+        p("BTreeMap<String, Vec<u8>>", true, &[], false),
+        p("(u8, String)", true, &[], false),
+        p("(bool, i16, u8)", true, &[], false),
+        p("[u8; 2]", true, &[], false),
+        p("Point", false, &[], false),
+        p("Color", false, &[], false),
+        p("Option<Point>", true, &[], false),
+        p("Vec<Color>", true, &[], false),
+        p("Box<u8>", true, &[], false),
+        p("serde_json::Value", true, &[], false),
+        p("PhantomData<u8>", true, &[], false),
+    ]
+}
+
+const FIELD_IDENTS: &[&str] = &[
+    "a", "b", "id", "kind", "name", "value", "count", "first_name", "last_name", "is_active", "my_long_field_name",
+    "x_y", "tag", "type_name", "data", "items", "flag", "opt", "inner", "extra_info", "radius", "top_left", "q", "limit",
+];
+const VARIANT_IDENTS: &[&str] =
+    &["Alpha", "Beta", "GammaDelta", "Unit", "Circle", "BigRedThing", "A", "Ab", "Rect", "Empty", "SomeOther", "Label"];
+const RENAMES: &[&str] =
+    &["renamed", "Re Named", "a.b", "日本", "x-y", "UPPER", "camelCase", "snake_case", "Kind", "NAME", "value", "k[0]", "ß"];
+const TAGS: &[&str] = &["type", "kind", "tag", "t", "my tag", "kind.of", "name", "value"];
+
+#[derive(Clone, Copy, Debug, PartialEq)]
+enum RA {
+    Camel,
+    Lower,
+}
+
+fn camel(ident: &str) -> String {
+    let mut out = String::new();
+    if ident.contains('_') {
+        for (i, w) in ident.split('_').filter(|w| !w.is_empty()).enumerate() {
+            if i == 0 {
+                out.push_str(&w.to_lowercase());
+            } else {
+                let mut cs = w.chars();
+                if let Some(c) = cs.next() {
+                    out.extend(c.to_uppercase());
+                    out.push_str(&cs.as_str().to_lowercase());
+                }
+            }
+        }
+    } else {
+        let mut cs = ident.chars();
+        if let Some(c) = cs.next() {
+            out.extend(c.to_lowercase());
+            out.push_str(cs.as_str());
+        }
+    }
+    out
+}
+
+/// the documented rule: rename, else the applicable rename_all, else the identifier
+fn effective(ident: &str, rename: &Option<String>, ra: Option<RA>) -> String {
+    match rename {
+        Some(r) => r.clone(),
+        None => match ra {
+            Some(RA::Camel) => camel(ident),
+            Some(RA::Lower) => ident.to_lowercase(),
+            None => ident.to_string(),
+        },
+    }
+}
+
+#[derive(Clone, Debug)]
+enum Conv {
+    None,
+    From { id: u32, by_ref: bool },
+    TryFrom { id: u32, by_ref: bool },
+}
+
+#[derive(Clone, Debug)]
+enum Dflt {
+    None,
+    Trait,
+    Expr(String),
+}
+
+#[derive(Clone, Debug)]
+struct Field {
+    ident: String,
+    rename: Option<String>,
+    skip: bool,
+    dflt: Dflt,
+    /// pool type read from the payload
+    src: PoolTy,
+    conv: Conv,
+    map: Option<u32>,
+    missing_fn: Option<u32>,
+    err1: bool,
+}
+
+impl Field {
+    fn declared(&self) -> String {
+        match self.conv {
+            Conv::None => self.src.rust.clone(),
+            _ => format!("Tagged<{}>", self.src.rust),
+        }
+    }
+}
+
+#[derive(Clone, Debug)]
+enum Deny {
+    No,
+    Default,
+    Custom(u32),
+}
+
+fn gen_fields(r: &mut R, pool: &[PoolTy], pinned: bool, max: usize, avoid_key: Option<&str>) -> Vec<Field> {
+    let n = r.below(max + 1);
+    let mut fields: Vec<Field> = vec![];
+    let mut tries = 0;
+    while fields.len() < n && tries < 100 {
+        tries += 1;
+        let ident = r.pick(FIELD_IDENTS).to_string();
+        if fields.iter().any(|f| f.ident == ident) {
+            continue;
+        }
+        let _ = avoid_key;
+        let src = r.pick(pool).clone();
+        let mut f = Field {
+            ident,
+            rename: None,
+            skip: false,
+            dflt: Dflt::None,
+            src,
+            conv: Conv::None,
+            map: None,
+            missing_fn: None,
+            err1: false,
+        };
+        // conversion
+        let c = r.below(10);
+        if c < 3 && f.src.generic {
+            let by_ref = r.chance(0.4);
+            f.conv = if c == 0 { Conv::From { id: r.probe(), by_ref } } else { Conv::TryFrom { id: r.probe(), by_ref } };
+        }
+        let has_conv = !matches!(f.conv, Conv::None);
+        let declared_default_ok = f.src.default_ok; // Tagged<S>: Default iff S: Default
+        // skip
+        if !has_conv && r.chance(0.12) && (declared_default_ok || !f.src.exprs.is_empty()) {
+            f.skip = true;
+        }
+        // default
+        let d = r.below(10);
+        if d < 2 && declared_default_ok {
+            f.dflt = Dflt::Trait;
+        } else if d < 4 && !f.src.exprs.is_empty() {
+            let e = r.pick(&f.src.exprs).clone();
+            f.dflt = Dflt::Expr(if has_conv { format!("Tagged {{ via: 5, inner: {e} }}") } else { e });
+        }
+        if f.skip && matches!(f.dflt, Dflt::None) && !declared_default_ok {
+            f.dflt = Dflt::Expr(f.src.exprs[0].clone());
+        }
+        // rename
+        if !f.skip && r.chance(0.25) {
+            f.rename = Some(r.pick(RENAMES).to_string());
+        }
+        // map
+        if (f.src.bump || has_conv) && r.chance(0.2) {
+            f.map = Some(r.probe());
+        }
+        // custom missing function
+        if !f.skip && matches!(f.dflt, Dflt::None) && r.chance(0.15) {
+            f.missing_fn = Some(r.probe());
+        }
+        if pinned && !f.skip && r.chance(0.4) {
+            f.err1 = true;
+        }
+        fields.push(f);
+    }
+    fields
+}
+
+fn keys_distinct(fields: &[Field], ra: Option<RA>) -> bool {
+    let mut ks: Vec<String> = fields.iter().filter(|f| !f.skip).map(|f| effective(&f.ident, &f.rename, ra)).collect();
+    let n = ks.len();
+    ks.sort();
+    ks.dedup();
+    ks.len() == n
+}
+
+fn field_attr_items(f: &Field) -> Vec<String> {
+    let mut items = vec![];
+    if let Some(rn) = &f.rename {
+        items.push(format!("rename = {rn:?}"));
+    }
+    if f.skip {
+        items.push("skip".to_string());
+    }
+    match &f.dflt {
+        Dflt::None => {}
+        Dflt::Trait => items.push("default".into()),
+        Dflt::Expr(e) => items.push(format!("default = {e}")),
+    }
+    let s = &f.src.rust;
+    match &f.conv {
+        Conv::None => {}
+        Conv::From { id, by_ref: false } => items.push(format!("from({s}) = from_p::<{id}, {s}>")),
+        Conv::From { id, by_ref: true } => items.push(format!("from(&{s}) = from_ref_p::<{id}, {s}>")),
+        Conv::TryFrom { id, by_ref: false } => items.push(format!("try_from({s}) = try_p::<{id}, {s}> -> ProbeErr")),
+        Conv::TryFrom { id, by_ref: true } => items.push(format!("try_from(&{s}) = try_ref_p::<{id}, {s}> -> ProbeErr")),
+    }
+    if let Some(id) = f.map {
+        items.push(format!("map = map_p::<{id}, {}>", f.declared()));
+    }
+    if let Some(id) = f.missing_fn {
+        items.push(format!("missing_field_error = missing_p::<{id}>"));
+    }
+    if f.err1 {
+        items.push("error = Rec<1>".into());
+    }
+    items
+}
+
+/// print attribute items in random order, randomly split over several #[deserr(..)]
+fn attrs(r: &mut R, mut items: Vec<String>, indent: &str) -> String {
+    let mut out = String::new();
+    // shuffle
+    for i in (1..items.len()).rev() {
+        let j = r.below(i + 1);
+        items.swap(i, j);
+    }
+    let mut cur: Vec<String> = vec![];
+    for it in items {
+        cur.push(it);
+        if r.chance(0.3) {
+            let trailing = if r.chance(0.2) { "," } else { "" };
+            let _ = writeln!(out, "{indent}#[deserr({}{trailing})]", cur.join(", "));
+            cur.clear();
+        }
+    }
+    if !cur.is_empty() {
+        let _ = writeln!(out, "{indent}#[deserr({})]", cur.join(", "));
+    }
+    out
+}
+
+fn field_ty_desc(f: &Field, key: &str) -> String {
+    let default = if f.skip || !matches!(f.dflt, Dflt::None) {
+        let e = match &f.dflt {
+            Dflt::Expr(e) => e.clone(),
+            _ => "Default::default()".to_string(),
+        };
+        format!("Some({{ let d: {} = {e}; d.to_model() }})", f.declared())
+    } else {
+        "None".to_string()
+    };
+    let conv = match &f.conv {
+        Conv::None => "Conv::None".to_string(),
+        Conv::From { id, .. } => format!("Conv::From({id})"),
+        Conv::TryFrom { id, .. } => format!("Conv::TryFrom({id})"),
+    };
+    format!(
+        "FieldTy {{ ident: {:?}.into(), key: {:?}.into(), skip: {}, default: {default}, src: <{} as Described>::ty(), conv: {conv}, map: {:?}, missing_fn: {:?}, err_tag: {} }}",
+        f.ident,
+        key,
+        f.skip,
+        f.src.rust,
+        f.map,
+        f.missing_fn,
+        if f.err1 { 1 } else { 0 }
+    )
+}
+
+fn deny_desc(d: &Deny) -> String {
+    match d {
+        Deny::No => "Deny::No".into(),
+        Deny::Default => "Deny::Default".into(),
+        Deny::Custom(id) => format!("Deny::Custom({id})"),
+    }
+}
+
+fn print_fields(r: &mut R, fields: &[Field], indent: &str, vis: &str) -> String {
+    let mut s = String::new();
+    for f in fields {
+        s.push_str(&attrs(r, field_attr_items(f), indent));
+        let _ = writeln!(s, "{indent}{vis}{}: {},", f.ident, f.declared());
+    }
+    s
+}
+
+fn ra_item(ra: Option<RA>) -> Option<String> {
+    ra.map(|x| format!("rename_all = {}", if x == RA::Camel { "camelCase" } else { "lowercase" }))
+}
+
+fn gen_ra(r: &mut R) -> Option<RA> {
+    match r.below(5) {
+        0 | 1 => Some(RA::Camel),
+        2 => Some(RA::Lower),
+        _ => None,
+    }
+}
+
+const WHERE: &str = "where_predicate = __Deserr_E: deserr::MergeWithError<ProbeErr>";
+
+struct Out {
+    code: String,
+    entries: Vec<String>,
+}
+
+fn emit_src_const(out: &mut Out, name: &str, src: &str) {
+    let _ = writeln!(out.code, "pub const SRC_{}: &str = r####\"{}\"####;", name.to_uppercase(), src.trim_end());
+    out.code.push_str(src);
+}
+
+fn gen_struct(r: &mut R, out: &mut Out, name: &str, pool: &[PoolTy], pinned: bool) {
+    let (ra, fields) = loop {
+        let ra = gen_ra(r);
+        let fields = gen_fields(r, pool, pinned, 6, None);
+        if keys_distinct(&fields, ra) {
+            break (ra, fields);
+        }
+    };
+    let deny = match r.below(6) {
+        0 | 1 => Deny::Default,
+        2 => Deny::Custom(r.probe()),
+        _ => Deny::No,
+    };
+    let validate = if r.chance(0.25) { Some(r.probe()) } else { None };
+    let mut items: Vec<String> = vec![];
+    if let Some(x) = ra_item(ra) {
+        items.push(x);
+    }
+    match &deny {
+        Deny::No => {}
+        Deny::Default => items.push("deny_unknown_fields".into()),
+        Deny::Custom(id) => items.push(format!("deny_unknown_fields = unknown_p::<{id}>")),
+    }
+    if let Some(id) = validate {
+        items.push(format!("validate = validate_p::<{id}, Self> -> ProbeErr"));
+    }
+    if pinned {
+        items.push("error = Rec<0>".into());
+    } else {
+        items.push(WHERE.into());
+    }
+    let mut src = String::new();
+    src.push_str("#[derive(Deserr, Debug, Clone)]\n");
+    src.push_str(&attrs(r, items, ""));
+    let _ = writeln!(src, "pub struct {name} {{");
+    src.push_str(&print_fields(r, &fields, "    ", "pub "));
+    src.push_str("}\n");
+    emit_src_const(out, name, &src);
+    // ToModel
+    let _ = writeln!(
+        out.code,
+        "impl ToModel for {name} {{ fn to_model(&self) -> M {{ M::Struct {{ name: {name:?}.into(), fields: vec![{}] }} }} }}",
+        fields.iter().map(|f| format!("({:?}.into(), self.{}.to_model())", f.ident, f.ident)).collect::<Vec<_>>().join(", ")
+    );
+    // Described
+    let _ = writeln!(
+        out.code,
+        "impl Described for {name} {{ fn ty() -> Ty {{ Ty::Struct(Arc::new(StructTy {{ name: {name:?}.into(), fields: vec![{}], deny: {}, validate: {:?} }})) }} }}",
+        fields.iter().map(|f| field_ty_desc(f, &effective(&f.ident, &f.rename, ra))).collect::<Vec<_>>().join(", "),
+        deny_desc(&deny),
+        validate
+    );
+    let ctor = if pinned { "rec_only" } else { "generic" };
+    out.entries.push(format!("Entry::{ctor}::<{name}>({name:?}, SRC_{}, \"gen\")", name.to_uppercase()));
+    if r.chance(0.5) {
+        let w = *r.pick(&["Vec<{}>", "Option<{}>", "BTreeMap<String, {}>", "(u8, {})", "[{}; 2]", "Box<{}>"]);
+        let t = w.replace("{}", name);
+        out.entries.push(format!("Entry::{ctor}::<{t}>({t:?}, SRC_{}, \"gen\")", name.to_uppercase()));
+    }
+}
+
+fn gen_enum(r: &mut R, out: &mut Out, name: &str, pool: &[PoolTy]) {
+    let tag = r.pick(TAGS).to_string();
+    let ra = gen_ra(r);
+    let nvar = 1 + r.below(4);
+    struct Var {
+        ident: String,
+        rename: Option<String>,
+        ra: Option<RA>,
+        fields: Option<Vec<Field>>,
+    }
+    let mut vars: Vec<Var> = vec![];
+    let all_unit = r.chance(0.15);
+    let mut tries = 0;
+    while vars.len() < nvar && tries < 100 {
+        tries += 1;
+        let ident = r.pick(VARIANT_IDENTS).to_string();
+        if vars.iter().any(|v| v.ident == ident) {
+            continue;
+        }
+        let rename = if r.chance(0.25) { Some(r.pick(RENAMES).to_string()) } else { None };
+        let key = effective(&ident, &rename, ra);
+        if vars.iter().any(|v| effective(&v.ident, &v.rename, ra) == key) {
+            continue;
+        }
+        let unit = all_unit || r.chance(0.25);
+        let (vra, fields) = if unit {
+            (None, None)
+        } else {
+            loop {
+                let vra = gen_ra(r);
+                let fields = gen_fields(r, pool, false, 4, Some(&tag));
+                if keys_distinct(&fields, vra) {
+                    break (vra, Some(fields));
+                }
+            }
+        };
+        vars.push(Var { ident, rename, ra: vra, fields });
+    }
+    let deny = match r.below(6) {
+        0 | 1 => Deny::Default,
+        2 => Deny::Custom(r.probe()),
+        _ => Deny::No,
+    };
+    let validate = if r.chance(0.2) { Some(r.probe()) } else { None };
+    let mut items: Vec<String> = vec![format!("tag = {tag:?}")];
+    if let Some(x) = ra_item(ra) {
+        items.push(x);
+    }
+    match &deny {
+        Deny::No => {}
+        Deny::Default => items.push("deny_unknown_fields".into()),
+        Deny::Custom(id) => items.push(format!("deny_unknown_fields = unknown_p::<{id}>")),
+    }
+    if let Some(id) = validate {
+        items.push(format!("validate = validate_p::<{id}, Self> -> ProbeErr"));
+    }
+    items.push(WHERE.into());
+    let mut src = String::new();
+    src.push_str("#[derive(Deserr, Debug, Clone)]\n");
+    src.push_str(&attrs(r, items, ""));
+    let _ = writeln!(src, "pub enum {name} {{");
+    for v in &vars {
+        let mut vi: Vec<String> = vec![];
+        if let Some(rn) = &v.rename {
+            vi.push(format!("rename = {rn:?}"));
+        }
+        if let Some(x) = ra_item(v.ra) {
+            vi.push(x);
+        }
+        src.push_str(&attrs(r, vi, "    "));
+        match &v.fields {
+            None => {
+                let _ = writeln!(src, "    {},", v.ident);
+            }
+            Some(fs) => {
+                let _ = writeln!(src, "    {} {{", v.ident);
+                src.push_str(&print_fields(r, fs, "        ", ""));
+                src.push_str("    },\n");
+            }
+        }
+    }
+    src.push_str("}\n");
+    emit_src_const(out, name, &src);
+    // ToModel
+    let mut arms = String::new();
+    for v in &vars {
+        match &v.fields {
+            None => {
+                let _ = write!(arms, "{name}::{} => ({:?}, vec![]), ", v.ident, v.ident);
+            }
+            Some(fs) => {
+                let _ = write!(
+                    arms,
+                    "{name}::{} {{ {} }} => ({:?}, vec![{}]), ",
+                    v.ident,
+                    fs.iter().map(|f| f.ident.clone()).collect::<Vec<_>>().join(", "),
+                    v.ident,
+                    fs.iter().map(|f| format!("({:?}.into(), {}.to_model())", f.ident, f.ident)).collect::<Vec<_>>().join(", ")
+                );
+            }
+        }
+    }
+    let _ = writeln!(
+        out.code,
+        "impl ToModel for {name} {{ fn to_model(&self) -> M {{ let (v, f): (&str, Vec<(String, M)>) = match self {{ {arms} }}; M::Variant {{ name: {name:?}.into(), variant: v.into(), fields: f }} }} }}"
+    );
+    let vdesc: Vec<String> = vars
+        .iter()
+        .map(|v| {
+            format!(
+                "VariantTy {{ ident: {:?}.into(), key: {:?}.into(), fields: {} }}",
+                v.ident,
+                effective(&v.ident, &v.rename, ra),
+                match &v.fields {
+                    None => "None".to_string(),
+                    // the fields of a variant are renamed by the variant's own rename_all only
+                    Some(fs) => format!(
+                        "Some(vec![{}])",
+                        fs.iter().map(|f| field_ty_desc(f, &effective(&f.ident, &f.rename, v.ra))).collect::<Vec<_>>().join(", ")
+                    ),
+                }
+            )
+        })
+        .collect();
+    let _ = writeln!(
+        out.code,
+        "impl Described for {name} {{ fn ty() -> Ty {{ Ty::TaggedEnum(Arc::new(EnumTy {{ name: {name:?}.into(), tag: {tag:?}.into(), variants: vec![{}], deny: {}, validate: {:?} }})) }} }}",
+        vdesc.join(", "),
+        deny_desc(&deny),
+        validate
+    );
+    out.entries.push(format!("Entry::generic::<{name}>({name:?}, SRC_{}, \"gen\")", name.to_uppercase()));
+    if r.chance(0.4) {
+        let w = *r.pick(&["Vec<{}>", "Option<{}>", "BTreeMap<String, {}>"]);
+        let t = w.replace("{}", name);
+        out.entries.push(format!("Entry::generic::<{t}>({t:?}, SRC_{}, \"gen\")", name.to_uppercase()));
+    }
+}
+
+fn gen_unit_enum(r: &mut R, out: &mut Out, name: &str) {
+    let ra = gen_ra(r);
+    let nvar = 1 + r.below(5);
+    let mut vars: Vec<(String, Option<String>)> = vec![];
+    let mut tries = 0;
+    while vars.len() < nvar && tries < 100 {
+        tries += 1;
+        let ident = r.pick(VARIANT_IDENTS).to_string();
+        if vars.iter().any(|v| v.0 == ident) {
+            continue;
+        }
+        let rename = if r.chance(0.3) { Some(r.pick(RENAMES).to_string()) } else { None };
+        let key = effective(&ident, &rename, ra);
+        if vars.iter().any(|v| effective(&v.0, &v.1, ra) == key) {
+            continue;
+        }
+        vars.push((ident, rename));
+    }
+    let validate = if r.chance(0.15) { Some(r.probe()) } else { None };
+    let mut items: Vec<String> = vec![];
+    if let Some(x) = ra_item(ra) {
+        items.push(x);
+    }
+    if let Some(id) = validate {
+        items.push(format!("validate = validate_p::<{id}, Self> -> ProbeErr"));
+    }
+    items.push(WHERE.into());
+    let mut src = String::new();
+    src.push_str("#[derive(Deserr, Debug, Clone)]\n");
+    src.push_str(&attrs(r, items, ""));
+    let _ = writeln!(src, "pub enum {name} {{");
+    for (ident, rename) in &vars {
+        if let Some(rn) = rename {
+            let _ = writeln!(src, "    #[deserr(rename = {rn:?})]");
+        }
+        let _ = writeln!(src, "    {ident},");
+    }
+    src.push_str("}\n");
+    emit_src_const(out, name, &src);
+    let arms: String = vars.iter().map(|(i, _)| format!("{name}::{i} => {i:?}, ")).collect();
+    let _ = writeln!(
+        out.code,
+        "impl ToModel for {name} {{ fn to_model(&self) -> M {{ let v: &str = match self {{ {arms} }}; M::Variant {{ name: {name:?}.into(), variant: v.into(), fields: vec![] }} }} }}"
+    );
+    let _ = writeln!(
+        out.code,
+        "impl Described for {name} {{ fn ty() -> Ty {{ Ty::UnitEnum(Arc::new(UnitEnumTy {{ name: {name:?}.into(), variants: vec![{}], validate: {:?} }})) }} }}",
+        vars.iter().map(|(i, rn)| format!("({i:?}.into(), {:?}.into())", effective(i, rn, ra))).collect::<Vec<_>>().join(", "),
+        validate
+    );
+    out.entries.push(format!("Entry::generic::<{name}>({name:?}, SRC_{}, \"gen\")", name.to_uppercase()));
+    if r.chance(0.4) {
+        let w = *r.pick(&["Vec<{}>", "Option<{}>", "BTreeMap<String, {}>", "({}, u8)"]);
+        let t = w.replace("{}", name);
+        out.entries.push(format!("Entry::generic::<{t}>({t:?}, SRC_{}, \"gen\")", name.to_uppercase()));
+    }
+}
+
+fn gen_via(r: &mut R, out: &mut Out, name: &str, pool: &[PoolTy]) {
+    let inner = loop {
+        let t = r.pick(pool).clone();
+        if t.generic {
+            break t;
+        }
+    };
+    let s = &inner.rust;
+    let try_ = r.chance(0.6);
+    let by_ref = r.chance(0.4);
+    let id = r.probe();
+    let validate = if r.chance(0.3) { Some(r.probe()) } else { None };
+    let fname = format!("conv_{}", name.to_lowercase());
+    let amp = if by_ref { "&" } else { "" };
+    let mut items: Vec<String> = vec![];
+    if try_ {
+        items.push(format!("try_from({amp}{s}) = {fname} -> ProbeErr"));
+    } else {
+        items.push(format!("from({amp}{s}) = {fname}"));
+    }
+    if let Some(v) = validate {
+        items.push(format!("validate = validate_p::<{v}, Self> -> ProbeErr"));
+    }
+    items.push(WHERE.into());
+    let mut src = String::new();
+    // the conversion function is part of the program text
+    let call = match (try_, by_ref) {
+        (false, false) => format!("pub fn {fname}(s: {s}) -> {name} {{ {name}(from_p::<{id}, {s}>(s)) }}"),
+        (false, true) => format!("pub fn {fname}(s: &{s}) -> {name} {{ {name}(from_ref_p::<{id}, {s}>(s)) }}"),
+        (true, false) => format!("pub fn {fname}(s: {s}) -> Result<{name}, ProbeErr> {{ try_p::<{id}, {s}>(s).map({name}) }}"),
+        (true, true) => format!("pub fn {fname}(s: &{s}) -> Result<{name}, ProbeErr> {{ try_ref_p::<{id}, {s}>(s).map({name}) }}"),
+    };
+    let _ = writeln!(src, "{call}");
+    src.push_str("#[derive(Deserr, Debug, Clone)]\n");
+    src.push_str(&attrs(r, items, ""));
+    let _ = writeln!(src, "pub struct {name}(pub Tagged<{s}>);");
+    emit_src_const(out, name, &src);
+    let _ = writeln!(out.code, "impl ToModel for {name} {{ fn to_model(&self) -> M {{ self.0.to_model() }} }}");
+    let _ = writeln!(
+        out.code,
+        "impl Described for {name} {{ fn ty() -> Ty {{ Ty::Via(Arc::new(ViaTy {{ name: {name:?}.into(), inner: <{s} as Described>::ty(), conv: {}, validate: {:?} }})) }} }}",
+        if try_ { format!("Conv::TryFrom({id})") } else { format!("Conv::From({id})") },
+        validate
+    );
+    out.entries.push(format!("Entry::generic::<{name}>({name:?}, SRC_{}, \"gen\")", name.to_uppercase()));
+    if r.chance(0.5) {
+        let w = *r.pick(&["Vec<{}>", "Option<{}>", "BTreeMap<String, {}>"]);
+        let t = w.replace("{}", name);
+        out.entries.push(format!("Entry::generic::<{t}>({t:?}, SRC_{}, \"gen\")", name.to_uppercase()));
+    }
+}
+
 fn main() {
     let args: Vec<String> = std::env::args().collect();
     let seed: u64 = args.get(1).and_then(|s| s.parse().ok()).unwrap_or(1);
-    let out = args.get(2).cloned().unwrap_or_else(|| "types.rs".into());
-    let body = format!("// generated by dv_gen, seed {seed}\npub const PROGRAM_SEED: u64 = {seed};\npub fn entries() -> Vec<dv_core::entry::Entry> {{ vec![] }}\n");
-    let old = std::fs::read_to_string(&out).unwrap_or_default();
-    if old != body {
-        std::fs::write(&out, body).expect("cannot write output");
+    let outp = args.get(2).cloned().unwrap_or_else(|| "types.rs".into());
+    let count: usize = args.get(3).and_then(|s| s.parse().ok()).unwrap_or(40);
+    let mut sb = [0u8; 32];
+    let mut x = seed ^ 0x6465_7365_7272_6776;
+    for c in sb.chunks_mut(8) {
+        x = x.wrapping_add(0x9E3779B97F4A7C15);
+        let mut z = x;
+        z = (z ^ (z >> 30)).wrapping_mul(0xBF58476D1CE4E5B9);
+        z = (z ^ (z >> 27)).wrapping_mul(0x94D049BB133111EB);
+        z ^= z >> 31;
+        c.copy_from_slice(&z.to_le_bytes());
+    }
+    let mut r = R { rng: TestRng::from_seed(RngAlgorithm::ChaCha, &sb), next_probe: 100 };
+    let mut out = Out { code: String::new(), entries: vec![] };
+    let _ = writeln!(out.code, "// generated by dv_gen, seed {seed} — do not edit");
+    out.code.push_str(
+        "use deserr::Deserr;\nuse dv_core::catalogue::{Color, Point};\nuse dv_core::entry::Entry;\nuse dv_core::model::{ToModel, M};\n\
+         use dv_core::probe::{from_p, from_ref_p, map_p, missing_p, try_p, try_ref_p, unknown_p, validate_p, Tagged};\n\
+         use dv_core::rec::{ProbeErr, Rec};\nuse dv_core::ty::*;\nuse std::collections::BTreeMap;\nuse std::marker::PhantomData;\n\
+         use std::num::NonZeroU8;\nuse std::sync::Arc;\n\n",
+    );
+    let _ = writeln!(out.code, "pub const PROGRAM_SEED: u64 = {seed};\n");
+    let mut pool = base_pool();
+    let mut levels: Vec<(String, usize)> = vec![];
+    for k in 0..count {
+        let name = format!("G{k}");
+        let usable: Vec<PoolTy> = pool.clone();
+        let before = out.code.len();
+        let kind = r.below(20);
+        let (generic, level) = match kind {
+            0..=8 => {
+                gen_struct(&mut r, &mut out, &name, &usable, false);
+                (true, 1)
+            }
+            9..=13 => {
+                gen_enum(&mut r, &mut out, &name, &usable);
+                (true, 1)
+            }
+            14 | 15 => {
+                gen_unit_enum(&mut r, &mut out, &name);
+                (true, 0)
+            }
+            16 | 17 => {
+                gen_via(&mut r, &mut out, &name, &usable);
+                (true, 1)
+            }
+            _ => {
+                gen_struct(&mut r, &mut out, &name, &usable, true);
+                (false, 1)
+            }
+        };
+        out.code.push('\n');
+        // nesting level: 1 + the deepest generated type mentioned in the new text
+        let new_text = &out.code[before..];
+        let mut deepest = 0usize;
+        for (other, lvl) in &levels {
+            let pat = other.as_str();
+            let mut from = 0;
+            while let Some(i) = new_text[from..].find(pat) {
+                let end = from + i + pat.len();
+                let next_is_digit = new_text[end..].chars().next().map(|c| c.is_ascii_digit()).unwrap_or(false);
+                let prev_ok = new_text[..from + i].chars().last().map(|c| !c.is_ascii_alphanumeric() && c != '_').unwrap_or(true);
+                if !next_is_digit && prev_ok {
+                    deepest = deepest.max(*lvl);
+                }
+                from = end;
+            }
+        }
+        let _ = level;
+        let my_level = deepest + 1;
+        levels.push((name.clone(), my_level));
+        if generic && my_level <= 1 {
+            // make the new type available as a field type of later ones
+            for w in ["{}", "Option<{}>", "Vec<{}>", "BTreeMap<String, {}>"] {
+                pool.push(PoolTy {
+                    rust: w.replace("{}", &name),
+                    default_ok: w != "{}",
+                    exprs: vec![],
+                    bump: false,
+                    level: my_level,
+                    generic: true,
+                });
+            }
+        }
+    }
+    let _ = writeln!(out.code, "pub fn entries() -> Vec<Entry> {{\n    vec![\n        {},\n    ]\n}}", out.entries.join(",\n        "));
+    let old = std::fs::read_to_string(&outp).unwrap_or_default();
+    if old != out.code {
+        std::fs::write(&outp, &out.code).expect("cannot write output");
     }
 }
